@@ -168,6 +168,23 @@ Proof.
   destruct (accepts ext gen_metadata_shape d); reflexivity.
 Qed.
 
+(* the same in the specification's words: a document with a dangling current_snapshot_id is refused (CURRENT_UNSET_NUM, the
+   number the source compares with, is -1: by computation) *)
+Lemma dangling_not_listed : forall d, dangling_current d -> current_listed d = false.
+Proof.
+  intros d [c [items [Gc [Gs [Nn [N1 Hno]]]]]]. unfold current_listed. rewrite Gc, Gs.
+  apply orb_false_iff. split.
+  - unfold current_unset. destruct c; try exact N1. contradiction.
+  - destruct (existsb (snapshot_has_id c) items) eqn:E; [|reflexivity]. exfalso.
+    apply existsb_exists in E. destruct E as [it [Hin Hid]]. unfold snapshot_has_id in Hid.
+    destruct (py_getitem it gen_snapshot_id_key) as [i|] eqn:Gi; [|discriminate].
+    rewrite (Hno it Hin i Gi) in Hid. discriminate.
+Qed.
+
+Lemma dangling_current_doc_refused : forall ext tp grace now timeout o d st,
+  dangling_current d -> collect_doc ext tp grace now timeout o d st = DocRefused.
+Proof. intros. apply dangling_current_refused. apply dangling_not_listed. assumption. Qed.
+
 Lemma Forall2_in_l : forall (A B : Type) (P : A -> B -> Prop) l m x, Forall2 P l m -> In x l -> exists y, In y m /\ P x y.
 Proof.
   intros A B P l m x F. induction F as [|a b l m Pab F IH]; intro Hin; [destruct Hin|].
